@@ -395,6 +395,7 @@ def nnxAttrsToLinenVars {α : Type} (r : Reg) (attrs : Forest (NVar α)) :
 structure Key where
   stream : String
   count : Nat
+  src : Nat          -- which `nnx.Rngs` object (its seed / identity) the key was drawn from
   deriving Repr, DecidableEq, Inhabited
 
 /-- the `rngs` dict handed to Linen: name ↦ key -/
@@ -403,11 +404,12 @@ abbrev Keys := List (String × Key)
 /-- `nnx.Rngs`: every stream has a counter -/
 structure Rngs where
   streams : List (String × Nat)
+  src : Nat := 0     -- identity of the object: the wrapper's own rngs, or one handed in per call
   deriving Repr, DecidableEq, Inhabited
 
 /-- `{name: stream() for name, stream in rngs.items()}` -/
 def Rngs.draw (r : Rngs) : Keys × Rngs :=
-  (r.streams.map fun nc => (nc.1, ⟨nc.1, nc.2⟩), ⟨r.streams.map fun nc => (nc.1, nc.2 + 1)⟩)
+  (r.streams.map fun nc => (nc.1, ⟨nc.1, nc.2, r.src⟩), ⟨r.streams.map fun nc => (nc.1, nc.2 + 1), r.src⟩)
 
 /-- the init path's `_rngs['params'] = _rngs.pop('default')` -/
 def renameDefault (ks : Keys) : Keys :=
@@ -481,6 +483,30 @@ def ToNNX.call {α ι ο μ : Type} (m : LinenMod α ι ο μ) (s : ToNNX α) (m
   | some _ => do
       let s' ← ToNNX.absorb { s with rngs := rngs' } upd
       pure (out, s')
+
+/-- `if not rngs: rngs = self.rngs`: the per-call `rngs=` argument wins when it is given and not empty -/
+def chooseRngs (given : Option Rngs) : Bool :=
+  match given with
+  | some g => !g.streams.isEmpty
+  | none => false
+
+/-- `ToNNX.__call__(x, rngs=given, mutable=…)` outside initialisation: the keys are drawn from the per-call
+`rngs` when one is passed (and then the wrapper's own streams do not move), from the wrapper's otherwise.
+Returns the output, the wrapper afterwards, and the caller's `rngs` object afterwards. -/
+def ToNNX.callR {α ι ο μ : Type} (m : LinenMod α ι ο μ) (s : ToNNX α) (given : Option Rngs) (mu : Option μ) (x : ι) :
+    Except Err (ο × ToNNX α × Option Rngs) := do
+  let vars ← s.heldVars
+  let useGiven := chooseRngs given
+  let src := if useGiven then given.getD s.rngs else s.rngs
+  let (ks, src') := src.draw
+  let own' := if useGiven then s.rngs else src'
+  let given' := if useGiven then some src' else given
+  let (out, upd) ← m.apply vars ks mu x
+  match mu with
+  | none => pure (out, { s with rngs := own' }, given')
+  | some _ => do
+      let s' ← ToNNX.absorb { s with rngs := own' } upd
+      pure (out, s', given')
 
 /-! ## ToLinen -/
 
